@@ -31,6 +31,9 @@ type SpawnStopCase struct {
 	TimeoutMs int    `json:"timeoutMs,omitempty"`
 	LateKids  int    `json:"lateKids"`         // children the late actor spawns in its OnLaunch
 	Second    bool   `json:"second,omitempty"` // a second ActorOf after the release
+	// Slow: one more top-level actor blocks in its OnKill handler until the spawn has gone on: the root is then in the
+	// middle of its termination (waiting for that child) when the spawn continues
+	Slow bool `json:"slow,omitempty"`
 }
 
 func (c SpawnStopCase) JSON() string { b, _ := json.Marshal(c); return string(b) }
@@ -45,6 +48,10 @@ func genSpawnStop(rt *rapid.T) SpawnStopCase {
 	}
 	c.LateKids = rapid.IntRange(0, 2).Draw(rt, "lateKids")
 	c.Second = rapid.Bool().Draw(rt, "second")
+	c.Slow = rapid.Bool().Draw(rt, "slow")
+	if c.Slow && c.How == "stop-timeout" {
+		c.TimeoutMs = 5000 // the slow actor is released without virtual time passing; the timeout only has to be generous
+	}
 	return c
 }
 
@@ -59,6 +66,10 @@ func runSpawnStop(t *testing.T, c SpawnStopCase) (v *verdict, nontrivial bool, l
 			for k := 0; k < c.Kids; k++ {
 				w.Tell(name, "", 0, []wld.Step{{Op: "spawn", Spec: &wld.Spec{Name: fmt.Sprintf("k%d", k)}}})
 			}
+		}
+		if c.Slow {
+			_, _ = w.Spawn(wld.Spec{Name: "slow", GateKill: "slow-terminator"})
+			lab["root-terminating-when-the-spawn-goes-on"] = true
 		}
 		vt.Settle()
 		// ---- park the late spawn
@@ -144,6 +155,10 @@ func runSpawnStop(t *testing.T, c SpawnStopCase) (v *verdict, nontrivial bool, l
 		}
 		close(release)
 		vt.Settle()
+		if c.Slow {
+			w.Open("slow-terminator")
+			vt.Settle()
+		}
 		var sp spawnRet
 		select {
 		case sp = <-spawned:
